@@ -520,6 +520,41 @@ def w_objects(case):
                          'posterior do not match the controller\'s parameters '
                          'after data / fix / data', 'expected': n,
                          'observed': len(top), 'behaviour': 'obj_agree'})
+    elif kind == 'relabel':
+        # log-likelihoods that were labelled by an earlier hierarchical likelihood
+        # (at other positions), or carry a user ID equal to a default label: the new
+        # hierarchical likelihood either refuses them or publishes distinct IDs
+        def mk(_id=None):
+            ll = chi.LogLikelihood(ToyModel(2, 1), chi.GaussianErrorModel(),
+                                   [1.0, 2.0], [0.2, 0.9])
+            if _id is not None:
+                ll.set_id(_id)
+            return ll
+        lls = [mk(i_) for i_ in case['ids']]
+        pop = popbuild.build(rp.Comp([rp.G(1), rp.P(1), rp.LN(1)]), None)
+        first = [lls[i_] for i_ in case['first']]
+        if first:
+            try:
+                chi.HierarchicalLogLikelihood(first, popbuild.build(
+                    rp.Comp([rp.G(1), rp.P(1), rp.LN(1)]), None))
+            except ValueError:
+                pass          # (refused: nothing was built)
+        try:
+            hl = chi.HierarchicalLogLikelihood([lls[i_] for i_ in case['second']],
+                                               pop)
+        except ValueError:
+            hl = None
+        if hl is not None:
+            ids_u = list(hl.get_id(unique=True))
+            named = list(hl.get_parameter_names(include_ids=True))
+            if len(set(ids_u)) != len(ids_u) or len(set(named)) != len(named):
+                viol.append({'sub': 'relabel', 'message': 'hierarchical likelihood '
+                             'built from log-likelihoods labelled earlier '
+                             'publishes the same ID for several individuals',
+                             'expected': 'distinct IDs (or a refusal)',
+                             'observed': ids_u, 'behaviour': 'relabel'})
+            agree('hierarchical likelihood from relabelled log-likelihoods',
+                  hl.n_parameters(), hl.get_parameter_names())
     elif kind == 'shared_em':
         # one error model instance given for several outputs
         em = chi.GaussianErrorModel() if case['em'] == 'G' else \
@@ -645,6 +680,7 @@ def w_objects(case):
                          'behaviour': 'filter_distinct'})
     elif kind == 'mech':
         m = chi.library.ModelLibrary().erlotinib_tumour_growth_inhibition_model()
+        n_ren = 0
         for op in case['ops']:
             if op[0] == 'adm':
                 m.set_administration('central', direct=op[1])
@@ -659,7 +695,8 @@ def w_objects(case):
             elif op[0] == 'ren':
                 # (a parameter that is free at that moment gets another name)
                 m.set_parameter_names({m.parameters()[op[1]]: 'renamed %d (%d)' % (
-                    op[1], sum(1 for n_ in m.parameters() if 'renamed' in n_))})
+                    op[1], n_ren)})
+                n_ren += 1
             elif op[0] == 'rel':
                 if isinstance(m, chi.ReducedMechanisticModel):
                     m.fix_parameters({n_: None for n_ in
@@ -759,6 +796,12 @@ def build(tier, seed):
             for fix in (None, -1, -2):
                 objs.append({'kind': 'ctrl_refit', 'pop': pop, 'n_first': n_first,
                              'n_second': n_second, 'fix': fix, 'ops': []})
+    for ids_ in ([None, None, None], [None, 'Log-likelihood 2', None],
+                 ['Log-likelihood 2', None, None], ['x', None, 'Log-likelihood 1']):
+        for first in ([], [0, 1], [1, 0], [2, 1], [0, 1, 2]):
+            for second in ([0, 1], [1, 2], [2, 0], [1, 0, 2], [2, 1, 0]):
+                objs.append({'kind': 'relabel', 'ids': ids_, 'first': first,
+                             'second': second, 'ops': []})
     for obj in ('ll', 'pred', 'ctrl'):
         for em in ('G', 'CM'):
             for k in (2, 3):
@@ -866,3 +909,8 @@ META = {
     'level_note': 'Depth-bounded for histories (bound in evidence); exhaustive over '
                   'compositions within the alphabet.',
 }
+META['level_text'] += (
+    ' Also: custom parameter names of exactly n_parameters() entries in the populat'
+    'ion histories, renames in the mechanistic histories, nested compositions with '
+    "the special dimension first, relabelled log-likelihoods, the controller's indi"
+    'vidual-level counts.')
